@@ -2,7 +2,9 @@
    table keyed by getConnKey, getOrCreateConn with its wildcard fallback,
    getConn's replace-if-closed, one iteration of Serve's read loop, the
    periodic handleInactivityMonitors sweep, Server.NewConn, the discovery table
-   (multicastHandler) consulted by the cfg.Handler wrapper, the decision
+   (multicastHandler) consulted by the cfg.Handler wrapper -- registered by
+   DiscoveryRequest and removed when that call returns, also when it returns at
+   once because its datagram could not be sent (EDiscFail) --, the decision
    table of checkAcceptError of the stream/DTLS servers, and (Part 5) their
    accept level: one goroutine per accepted connection, the handshake of a
    connection being an event of its own goroutine.
@@ -109,7 +111,11 @@ Section Server.
                                                                    application, inactivity monitor, own error path) *)
   | ETick                                                       (* handleInactivityMonitors *)
   | EDiscStart (tok : list Z) (rcv : Z)                         (* DiscoveryRequest registers its receiver *)
-  | EDiscEnd (tok : list Z).                                    (* ... and removes it on return *)
+  | EDiscEnd (tok : list Z)                                     (* ... and removes it on return *)
+  | EDiscFail (tok : list Z) (rcv : Z).                         (* a DiscoveryRequest whose datagram cannot be sent
+                                                                   (WriteMulticast / WriteWithContext returns an error):
+                                                                   LoadOrStore, the write fails, `return err` runs the
+                                                                   deferred LoadAndDelete -- one call, start to return *)
 
   Inductive sout :=
   | SNew (raddr : addr) (id : Z)               (* cfg.OnNewConn(cc) *)
@@ -118,7 +124,8 @@ Section Server.
   | SErrGetConn (raddr : addr)                 (* cfg.Errors("cannot get client connection"); datagram dropped *)
   | SConn (raddr : addr) (id : Z)              (* value returned by NewConn *)
   | SErrNewConn (raddr : addr)
-  | SDiscExists.                               (* ErrKeyAlreadyExists *)
+  | SDiscExists                                (* ErrKeyAlreadyExists *)
+  | SDiscSendErr.                              (* DiscoveryRequest returned the error of the write *)
 
   Inductive sresult := SOk (s : sstate) (o : list sout) | SPanic.
 
@@ -219,6 +226,14 @@ Section Server.
         end
     | EDiscEnd tok =>
         SOk {| conns := conns s; next_id := next_id s; gmid := gmid s; mh := mh_remove (mh s) tok |} []
+    | EDiscFail tok rcv =>
+        (* discover.go, statement by statement: LoadOrStore (loaded => ErrKeyAlreadyExists, nothing deferred yet);
+           defer LoadAndDelete; the write returns an error; return err => the deferred LoadAndDelete runs *)
+        match mh_lookup (mh s) tok with
+        | Some _ => SOk s [SDiscExists]
+        | None => SOk {| conns := conns s; next_id := next_id s; gmid := gmid s; mh := mh_remove ((tok, rcv) :: mh s) tok |}
+                      [SDiscSendErr]
+        end
     end.
 
   Fixpoint run (s : sstate) (evs : list ev) : option (sstate * list sout) :=
@@ -250,6 +265,7 @@ Section Server.
     | SConn r _ => Some r
     | SErrNewConn r => Some r
     | SDiscExists => None
+    | SDiscSendErr => None
     end.
 End Server.
 
@@ -263,6 +279,7 @@ Arguments EClose {datagram}.
 Arguments ETick {datagram}.
 Arguments EDiscStart {datagram}.
 Arguments EDiscEnd {datagram}.
+Arguments EDiscFail {datagram}.
 Arguments SNew {pout}.
 Arguments SOut {pout}.
 Arguments SErrProcess {pout}.
@@ -270,6 +287,7 @@ Arguments SErrGetConn {pout}.
 Arguments SConn {pout}.
 Arguments SErrNewConn {pout}.
 Arguments SDiscExists {pout}.
+Arguments SDiscSendErr {pout}.
 Arguments conns {pstate}.
 Arguments next_id {pstate}.
 Arguments gmid {pstate}.
